@@ -14,7 +14,7 @@ NF = 3
 def all_cases(tier):
     out = []
     for ep, nb, vb, ev, cb, init in itertools.product((0, 1, 2, 3), (1, 2, 3), (None, 1, 2), (None, "binary", "multi-class", "categorical", "multi-class+callbacks"),
-                                                       (False, True, "flip", "peek"), ("train", "eval", "train+bn_eval", "eval+dropout_train", "train+bn_stats_frozen")):
+                                                       (False, True, "flip", "peek"), ("train", "eval", "train+bn_eval", "eval+dropout_train", "train+bn_stats_frozen", "train+first_layer_frozen")):
         out.append({"epochs": ep, "train_batches": nb, "val_batches": vb, "evaluator": ev, "callbacks": cb, "initial_mode": init})
     zero = [{"zero_metric": True, "which": w, "epochs": ep, "val": val} for w in ("accuracy", "loss") for ep in (1, 2, 3) for val in (False, True)]
     return out + uneven_cases() + evaluator_cases() + zero
@@ -69,7 +69,10 @@ def judge(case):
     model = Net()
     class Opt(sg.optim.SGD):
         def zero_grad(s):
-            trace.append(("zero_grad", model.training, gmode())); return super().zero_grad()
+            r = super().zero_grad()
+            # what the reset left behind on parameters that are being trained (the point of calling it before every update)
+            left = sum(1 for p in model.parameters() if p.requires_grad and p.grad is not None and np.any(np.asarray(p.grad.data) != 0))
+            trace.append(("zero_grad", model.training, gmode(), left)); return r
         def step(s):
             b = model.pstate(); r = super().step(); trace.append(("step", model.training, gmode(), b != model.pstate())); return r
     opt = Opt(model.parameters(), lr=0.05)
@@ -111,6 +114,7 @@ def judge(case):
     model.train() if case["initial_mode"].startswith("train") else model.eval()
     if case["initial_mode"] == "train+bn_eval": model.bn.eval()            # a submodule switched individually (frozen backbone)
     if case["initial_mode"] == "eval+dropout_train": model.do.train()
+    if case["initial_mode"] == "train+first_layer_frozen": model.l1.freeze()      # frozen parameters come first in the optimizer's list
     if case["initial_mode"] == "train+bn_stats_frozen":
         # pretrained statistics frozen after construction (layer.track_running_stats = False on a layer that owns buffers)
         model.bn.running_mean.data[...] = np.array([0.5, -1.0, 0.25, 2.0], dtype=np.float32); model.bn.running_var.data[...] = np.array([0.5, 2.0, 1.5, 0.75], dtype=np.float32)
@@ -152,6 +156,7 @@ def judge(case):
                 z = expect("zero_grad"); bw = expect("backward"); st = expect("step")
                 if None in (z, bw, st): ok = False; break
                 if not st[1]: v("step-not-in-training-mode", f"epoch {ep} batch {b}")
+                if z[3]: v("gradients-not-cleared-before-update", f"epoch {ep} batch {b}: after optimizer.zero_grad() {z[3]} trainable parameter(s) still hold a non-zero gradient")
                 tl.append(l[1]); to_.append(f[6]); tlab.append(l[2])
             if not ok: break
             vl, vo, vlab = [], [], []
@@ -415,7 +420,7 @@ def run(tier, seed):
     cov = {"states": r["evaluations"], "transitions": ntrans, "traces_validated_against_impl": r["evaluations"],
            "evaluations": r["evaluations"], "distinct_nontrivial": r["distinct_nontrivial"], "samples": r["samples"], "exhaustive": True,
            "rule": "epochs {0,1,2,3} x train batches {1,2,3} x validation loader {None,1,2 batches} x evaluator {None, binary, multi-class, "
-                   "categorical, multi-class with user epoch/step callbacks} (matching head/loss) x callbacks {none, both, both and leaving the model in the opposite mode, both and reading one batch of the loader they are handed} x initial model mode {train, eval, train with BatchNorm switched to eval, eval with Dropout switched to train, train with the BatchNorm statistics frozen after construction}; model = Linear+BatchNorm1d+"
+                   "categorical, multi-class with user epoch/step callbacks} (matching head/loss) x callbacks {none, both, both and leaving the model in the opposite mode, both and reading one batch of the loader they are handed} x initial model mode {train, eval, train with BatchNorm switched to eval, eval with Dropout switched to train, train with the BatchNorm statistics frozen after construction, train with the first layer frozen}; model = Linear+BatchNorm1d+"
                    "Dropout+Linear; every optimizer.zero_grad/step, model.forward, criterion and backward call is recorded with model.training "
                    "(all submodules) and the probed grad mode and matched against the automaton (forward, loss, zero_grad, backward, step)* "
                    "per batch, eval/no-grad/no-state-change validation, history keys and lengths, epoch loss = mean of batch losses, accuracy "
